@@ -197,6 +197,11 @@ impl<'a> M<'a> {
 			current: StateKind::Pending,
 			previous: prev_kind,
 		});
+		// an async spawn hook that suspends keeps the task busy before the spawn goes on
+		if self.case.sim.async_api && self.case.sim.hook_delay > 0 {
+			self.now += u64::from(self.case.sim.hook_delay);
+			self.busy_until = Some(self.now);
+		}
 		let idx = self.attempts;
 		self.attempts += 1;
 		self.rec(MEv::SpawnAttempt { idx, marker: self.hook });
